@@ -90,6 +90,8 @@ func admittedTypes(fn *ssa.Function, pi int) []string {
 	return out
 }
 
+var subPathFns = map[*ssa.Function]bool{}
+
 func c19(c *Ctx) {
 	lockPairing(c, "R-C19.9")
 	p, r := c.P, c.R
@@ -114,7 +116,21 @@ func c19(c *Ctx) {
 	tables := map[string]map[string]string{}
 	lists := map[string][]string{}
 	for _, be := range []string{"storage/inmem", "storage/file"} {
-		sp := c.need("R-C19.1", be, "subPathFromMsg")
+		sp := c.P.Func(be, "subPathFromMsg")
+		if sp == nil {
+			// renamed: the package's unexported function from a proto message to (string, error)
+			for _, mf := range p.ModuleFuncs() {
+				if mf.Pkg != nil && mf.Pkg == c.P.Pkg(be) && mf.Parent() == nil && mf.Signature.Recv() == nil && core.SigKey(mf.Signature) == "(google.golang.org/protobuf/proto.Message)->(string,error)" {
+					sp = mf
+				}
+			}
+		}
+		if sp == nil {
+			sp = c.need("R-C19.1", be, "subPathFromMsg")
+		} else {
+			r.Fn(core.FuncName(sp))
+		}
+		subPathFns[sp] = true
 		if sp == nil {
 			continue
 		}
@@ -182,7 +198,8 @@ func c19(c *Ctx) {
 			var valueOp *ssa.Call
 			for _, ci := range core.AllCalls(fn) {
 				cal := ci.Common().StaticCallee()
-				if cal != nil && cal.Signature.Recv() != nil && cal.Pkg == fn.Pkg && cal != fn && strings.HasSuffix(cal.Name(), "Value") {
+				// the value operation: a helper method of the same type taking (ctx, id, subPath, ...)
+				if cal != nil && cal.Signature.Recv() != nil && cal.Pkg == fn.Pkg && cal != fn && (strings.HasSuffix(cal.Name(), "Value") || strings.HasPrefix(core.SigKey(cal.Signature), "(context.Context,string,string")) {
 					valueOp, _ = ci.(*ssa.Call)
 				}
 			}
@@ -194,7 +211,7 @@ func c19(c *Ctx) {
 				core.ErrNil("ValidateMessage", core.CallNamed(typesPkg+".ValidateMessage")),
 				core.ErrNil("subPathFromMsg", func(x *ssa.Call) bool {
 					cal := x.Common().StaticCallee()
-					return cal != nil && cal.Name() == "subPathFromMsg"
+					return cal != nil && (cal.Name() == "subPathFromMsg" || subPathFns[cal])
 				}),
 			}
 			for _, g := range gs {
@@ -468,6 +485,7 @@ func c19Key(c *Ctx, be string, helper *ssa.Function) {
 	for i, k := range keys {
 		origins := map[string]bool{}
 		seen := map[ssa.Value]bool{}
+		paramArg := map[*ssa.Parameter]ssa.Value{}
 		var walk func(v ssa.Value)
 		walk = func(v ssa.Value) {
 			v = core.Strip(v)
@@ -477,6 +495,10 @@ func c19Key(c *Ctx, be string, helper *ssa.Function) {
 			seen[v] = true
 			switch x := v.(type) {
 			case *ssa.Parameter:
+				if a, isHelperParam := paramArg[x]; isHelperParam {
+					walk(a)
+					return
+				}
 				origins["param:"+x.Name()] = true
 			case *ssa.Const:
 				origins["const"] = true
@@ -494,6 +516,20 @@ func c19Key(c *Ctx, be string, helper *ssa.Function) {
 				if cn == "path/filepath.Join" || cn == "path.Join" {
 					for _, e := range core.SliceLiteralElems(x.Call.Args[0]) {
 						walk(e)
+					}
+					return
+				}
+				// a package-local pure key builder: what it returns, with its parameters standing for the arguments
+				if h := core.ModuleCallee(x.Common()); h != nil && h.Pkg == helper.Pkg && h.Signature.Recv() == nil && len(paramArg) < 16 {
+					for i, q := range h.Params {
+						if i < len(x.Call.Args) {
+							paramArg[q] = x.Call.Args[i]
+						}
+					}
+					for _, hr := range core.Returns(h) {
+						if len(hr.Results) == 1 {
+							walk(hr.Results[0])
+						}
 					}
 					return
 				}
